@@ -42,6 +42,7 @@ def lval(fn, node, env, elem=None):
         recv = dotted(node.func.value)
         if elem and recv and recv.startswith(elem + '.'):
             return ('EL(%s)' % recv[len(elem) + 1:],)
+
         if recv == 'self':
             return ('TOTAL',)
         if recv and recv.startswith('self.'):
@@ -121,6 +122,11 @@ def _trace_stmt(fn, st, env, tr, cont, elem):
         for s in st.orelse:
             _trace_stmt(fn, s, env, tr, cont, elem)
         return
+    if isinstance(st, ast.For) and isinstance(st.iter, ast.Call) and dotted(st.iter.func) in ('chain', 'itertools.chain') and len(st.iter.args) >= 2:
+        # for x in chain(A, B): body  ==  for x in A: body; for x in B: body
+        for a_ in st.iter.args:
+            _trace_stmt(fn, ast.copy_location(ast.For(target=st.target, iter=a_, body=st.body, orelse=[]), st), env, tr, cont, elem)
+        return
     if isinstance(st, ast.For):
         it = st.iter
         c = None
@@ -139,6 +145,7 @@ def _trace_stmt(fn, st, env, tr, cont, elem):
         before = dict(env)
         # the offsets seen by element i: pre-loop value + PREV(container) of what the body adds
         sym_env = {k: v for k, v in env.items()}
+        sym_env['__cont__'] = (c,)
         for s in st.body:
             _trace_stmt(fn, s, sym_env, tr, c, ev)
         # after the loop: pre-loop + ALL(container: increments)
@@ -156,7 +163,23 @@ def _calls(fn, st, env, tr, cont, elem):
         name = c.func.attr
         if not (name.startswith('calc_') or name.startswith('fk')):
             continue
-        kw = {k.arg: k.value for k in c.keywords}
+        kw = {}
+        for k in c.keywords:
+            if k.arg is not None:
+                kw[k.arg] = k.value
+            else:
+                # **common with common = dict(...) / {...} bound once in this function
+                lit = None
+                v = k.value
+                if isinstance(v, ast.Name):
+                    ds = [n for n in ast.walk(fn) if isinstance(n, ast.Assign) and len(n.targets) == 1 and isinstance(n.targets[0], ast.Name) and n.targets[0].id == v.id]
+                    v = ds[0].value if len(ds) == 1 else None
+                if isinstance(v, ast.Call) and dotted(v.func) == 'dict' and not v.args:
+                    lit = {kk.arg: kk.value for kk in v.keywords if kk.arg}
+                elif isinstance(v, ast.Dict) and all(isinstance(x, ast.Constant) for x in v.keys):
+                    lit = {x.value: y for x, y in zip(v.keys, v.values)}
+                for a_, b_ in (lit or {}).items():
+                    kw.setdefault(a_, b_)
         if 'row0' not in kw and 'col0' not in kw:
             continue
         # increments already applied in this iteration (call must precede them)
@@ -175,7 +198,7 @@ def bay_layout(chk):
     lay = {}
     for ev in tr.events:
         if ev['container']:
-            lay[ev['container']] = (ev['row0'], tuple(tr.incs.get(ev['container'], {}).get('row0', [])))
+            lay[ev['container']] = (ev['row0'], tuple(tr.incs.get(ev['container'], {}).get(ev['row0_txt'], [])))
     return lay, tr
 
 
@@ -199,14 +222,14 @@ def check_bay_consumer(chk, meth, lay):
         okp = ev['row0'] is not None and ev['row0'] == ev['col0']
         chk.ob('R13.2', okp, BAY, fname, '%s row/col offsets agree' % c, line=ev['line'], expected='row0 == col0 (square diagonal placement)',
                got='%s / %s' % (ev['row0_txt'], ev['col0_txt']))
-        incs = tuple(tr.incs.get(c, {}).get('row0', []))
-        incs_c = tuple(tr.incs.get(c, {}).get('col0', []))
+        incs = tuple(tr.incs.get(c, {}).get(ev['row0_txt'], []))
+        incs_c = tuple(tr.incs.get(c, {}).get(ev['col0_txt'], []))
         ok = ref is not None and strip_el(ev['row0'], c) == strip_el(ref[0], c) and incs == ref[1] and incs_c == ref[1]
         chk.ob('R13.2', ok, BAY, fname, '%s layout' % c, line=ev['line'],
                expected='start %s, per element += %s (as in calc_k0)' % (fmt(ref[0]) if ref else '?', list(ref[1]) if ref else '?'),
                got='start %s, per element += %s / %s' % (fmt(ev['row0']) if ev['row0'] is not None else ev['row0_txt'], list(incs), list(incs_c)),
                sample='%s: %s at %s, += %s' % (fname, c, fmt(ev['row0']) if ev['row0'] is not None else '?', list(incs)))
-        chk.ob('R13.2', not ev['incs_before'].get('row0'), BAY, fname, '%s call precedes its own increment' % c, line=ev['line'],
+        chk.ob('R13.2', not ev['incs_before'].get(ev['row0_txt']), BAY, fname, '%s call precedes its own increment' % c, line=ev['line'],
                expected='component placed at the offset of the previous components', got=ev['incs_before'])
         chk.ob('R13.2', ev['size'] == 'size' and ev['finalize'] == 'False', BAY, fname, '%s global size, no early symmetrisation' % c,
                line=ev['line'], got='size=%s finalize=%s' % (ev['size'], ev['finalize']))
@@ -351,6 +374,7 @@ def fext_layout(chk):
         return None
 
     # idiom (d): one pre-allocated vector filled through views at a running offset
+    parts_lists = set()   # names of lists collecting the per-component vectors
     pre = set()      # names bound to np.zeros(self.get_size())
     offs = set()     # running-offset variables (initialised to 0)
     events = []      # ('S', cont, term, inner, line) view taken at the offset / ('I', cont, term, inner, line) offset advanced
@@ -381,6 +405,20 @@ def fext_layout(chk):
             if isinstance(st, ast.AugAssign) and isinstance(st.target, ast.Name) and st.target.id in offs:
                 term = sizes.get(norm(st.value)) if isinstance(st.op, ast.Add) else None
                 events.append(('I', cont, term, inner[0], st.lineno))
+                continue
+            # idiom (e): a list of per-component vectors, concatenated once at the end
+            if isinstance(st, ast.Assign) and isinstance(st.targets[0], ast.Name) and isinstance(st.value, ast.List) and cont is None \
+                    and all(isinstance(e, ast.Name) and e.id in env for e in st.value.elts) and st.value.elts:
+                parts_lists.add(st.targets[0].id)
+                skin_len = env[st.value.elts[0].id]
+                continue
+            if isinstance(st, ast.Expr) and isinstance(st.value, ast.Call) and isinstance(st.value.func, ast.Attribute) and st.value.func.attr == 'append' \
+                    and isinstance(st.value.func.value, ast.Name) and st.value.func.value.id in parts_lists and len(st.value.args) == 1 and isinstance(st.value.args[0], ast.Name):
+                term = env.get(st.value.args[0].id)
+                if order and len(order[-1]) > 3 and order[-1][0] == cont and order[-1][3] == 'parts' and cont is not None and inner[0] == 0:
+                    order[-1][1].append(term)
+                else:
+                    order.append([cont, [term], st.lineno, 'parts'])
                 continue
             if isinstance(st, ast.Assign) and isinstance(st.targets[0], ast.Name):
                 nm = st.targets[0].id
@@ -445,7 +483,7 @@ def fext_layout(chk):
                 order.append((c, ts, 0))
     chk.ob('R13.2', skin_len == ('SKIN',), BAY, fname, 'skin block first', expected='leading block of length num*m*n', got=skin_len,
            sample='calc_fext: skin block of length num*m*n first')
-    got = [(c, tuple(t[0] if t else None for t in (terms or []))) for c, terms, line in order]
+    got = [(o[0], tuple(t[0] if t else None for t in (o[1] or []))) for o in order]
     chk.ob('R13.2', got == want, BAY, fname, 'concatenation order equals the matrix layout', expected=want, got=got,
            sample='calc_fext appends %s' % (got,))
     # R07.4 kernel class guards are evaluated in c07
